@@ -52,9 +52,9 @@ JudgeHalt(e) ==
       rets == idx("halt.return")
       callOf(r) == CHOOSE c \in calls : E[c].args[1] = E[r].args[1]
       pubs == [i \in 1..Cardinality(idx("iter.published")) |-> E[CHOOSE j \in idx("iter.published") : Cardinality({ x \in idx("iter.published") : x <= j }) = i].args[1]]
-  IN   Chk("harness.stuck", idx("harness.stuck") = {})
-  \cup Chk("c15.order", \A i \in 1..Len(pubs) : pubs[i] = i)
-  \cup Chk("c15.halt-never-returns", Cardinality(rets) = Cardinality(calls))
+  IN   Chk("c15.order", \A i \in 1..Len(pubs) : pubs[i] = i)
+  \* a Halt that has not returned 30 s after everything it could wait for was released
+  \cup Chk("c15.halt-never-returns", idx("halt.stuck") = {} /\ Cardinality(rets) = Cardinality(calls))
   \cup Chk("c15.halt-depth1", \A r \in rets : E[r].args[2] >= 1)
   \cup Chk("c15.halt-at-least-reported", \A r \in rets : \A d \in pubBefore(callOf(r)) \cup recvBefore(callOf(r)) : E[r].args[2] >= d)
   \cup Chk("c15.halt-completed", \A r \in rets : E[r].args[2] \in storedBefore(r))
